@@ -464,7 +464,9 @@ impl<'a> Gen<'a> {
                     n.writes.push(WriteOp::Restore { k, rewrite_only: self.rng.chance(1, 3) });
                 } else {
                     let k = self.recent_or_key();
-                    let v = format!("w{}-{}", nid, self.uniq()).into_bytes();
+                    // mostly unique values (every read is attributable to one write); sometimes one of three
+                    // recurring ones, so that a key goes A, B, A within one transaction
+                    let v = if self.rng.chance(1, 6) { self.rng.pick(&[b"A".as_slice(), b"B", b"C"]).to_vec() } else { format!("w{}-{}", nid, self.uniq()).into_bytes() };
                     self.recent.push(k.clone());
                     if self.recent.len() > 8 {
                         self.recent.remove(0);
@@ -623,6 +625,7 @@ impl<'a> Gen<'a> {
             1 => format!(" lead{}", slot),
             2 => format!("trail{} ", slot),
             3 => format!("\t{}\n", slot),
+            4 if self.rng.chance(1, 3) => format!("{:l<1$}", format!("long{}", slot), *self.rng.pick(&[127usize, 128, 129, 300])),
             _ => format!("label{}", slot),
         };
         let admin = match self.rng.below(4) {
@@ -807,7 +810,7 @@ impl<'a> Gen<'a> {
         let op = if r < 5 {
             Op::StoreCode { kind: self.kind(), creator, with_checksum }
         } else if r < 8 {
-            let id = *self.rng.pick(&[0u64, 1, 2, 5, 9, 100, 1 << 40, 3, 4, u64::MAX - 1, u64::MAX - 1]);
+            let id = *self.rng.pick(&[0u64, 1, 2, 5, 9, 100, 1 << 40, 3, 4, u64::MAX - 1, u64::MAX - 1, u64::MAX]);
             Op::StoreCodeWithId { kind: self.kind(), creator, id, with_checksum }
         } else if r < 9 {
             Op::DuplicateCode { code: self.rng.below(self.n_codes as u64 + 1) as u32 }
